@@ -28,10 +28,11 @@ RULE = (
 )
 STATE_MEASURE = '(stack depth bucket at failure, big_maps on the stack at failure, storage shape, crash position class, failure mode)'
 COMPONENTS = {
-    'real': ['pytezos.michelson.repl.Interpreter.execute (backup/restore)', 'MichelsonParser / michelson_to_micheline', 'every Michelson instruction executed',
+    'real': ['pytezos.michelson.repl.Interpreter.execute (backup/restore)', 'lazy big_map reads through ShellQuery/RpcNode against the simulated node', 'MichelsonParser / michelson_to_micheline', 'every Michelson instruction executed',
              'BigMapType (attach_context, update, get, duplicate/__deepcopy__, aggregate_lazy_diff)', 'ExecutionContext (big_map counters, patched environment)',
              'instructions.jupyter (BEGIN, COMMIT, RUN, PATCH, DUMP, DROP_ALL, BIG_MAP_DIFF)', 'MichelsonProgram (RUN)'],
-    'stub': ['instruction-level fault point: harness wrapper around the `execute` classmethods (raises MichelsonRuntimeError on entry/exit)'],
+    'stub': ['instruction-level fault point: harness wrapper around the `execute` classmethods (raises MichelsonRuntimeError on entry/exit)',
+             'HTTP transport and the node\'s big_map store (ids 5, 6, 7)'],
 }
 ASSUMPTIONS = [
     'Only public results are compared: error flag, stdout, executed-instruction tree (incl. lazy_diff/result), rendered stack; hidden context state is '
@@ -39,17 +40,24 @@ ASSUMPTIONS = [
     'DEBUG mode is excluded (it deliberately re-raises without restoring); RESET "<network>" is excluded (needs a network).',
     'Lazy-diff update lists are compared as sets keyed by key_hash (their order depends on hash seeds).',
 ]
-EXPECTED_PROBES = ['failed_after_alloc_tmp_id', 'failed_after_context_patch', 'commit_after_failure_two_big_maps', 'fault_injected_exit', 'fault_injected_entry',
+EXPECTED_PROBES = ['failed_after_origination_or_sapling_index', 'failed_after_registering_chain_big_map', 'failed_after_alloc_tmp_id', 'failed_after_context_patch', 'commit_after_failure_two_big_maps', 'fault_injected_exit', 'fault_injected_entry',
                    'failure_inside_nested_block', 'failed_run_after_clear', 'failed_begin', 'failed_commit']
 
 KV = 'int string'
+# literals 5, 6, 7 are ids of big_maps that exist on the simulated node (lazy reads go through the RPC stack)
 STORAGES = {
-    'bm': ('big_map int string', ['{}', '{ Elt 1 "a" }', '{ Elt 1 "a" ; Elt 2 "b" }'], 1),
-    'bm_bm': ('pair (big_map int string) (big_map int string)', ['(Pair {} {})', '(Pair { Elt 1 "a" } {})', '(Pair { Elt 1 "a" } { Elt 2 "b" })'], 2),
-    'bm_int': ('pair (big_map int string) int', ['(Pair {} 0)', '(Pair { Elt 3 "c" } 7)'], 1),
-    'bm3': ('pair (big_map int string) (pair (big_map int string) (big_map int string))', ['(Pair {} (Pair {} {}))', '(Pair { Elt 1 "x" } (Pair {} { Elt 2 "y" }))'], 3),
+    'bm': ('big_map int string', ['{}', '{ Elt 1 "a" }', '{ Elt 1 "a" ; Elt 2 "b" }', '5', '6'], 1),
+    'bm_bm': ('pair (big_map int string) (big_map int string)', ['(Pair {} {})', '(Pair { Elt 1 "a" } {})', '(Pair { Elt 1 "a" } { Elt 2 "b" })', '(Pair 5 6)', '(Pair 5 {})'], 2),
+    'bm_int': ('pair (big_map int string) int', ['(Pair {} 0)', '(Pair { Elt 3 "c" } 7)', '(Pair 5 1)'], 1),
+    'bm3': ('pair (big_map int string) (pair (big_map int string) (big_map int string))',
+            ['(Pair {} (Pair {} {}))', '(Pair { Elt 1 "x" } (Pair {} { Elt 2 "y" }))', '(Pair 5 (Pair 6 {}))'], 3),
     'int': ('int', ['0', '5'], 0),
+    # a big_map passed in the parameter is registered as a copy of an on-chain big_map
+    'pbm': ('big_map int string', ['{}', '5', '{ Elt 2 "s" }'], 1),
 }
+PARAMS = {'pbm': ('big_map int string', ['7', '{}', '6', '{ Elt 1 "p" }'])}
+CHAIN_BIG_MAPS = {5: {1: 'five-1', 2: 'five-2'}, 6: {3: 'six-3'}, 7: {1: 'seven-1', 4: 'seven-4'}}
+URI = 'http://node0.sim:8732'
 CODE = 'code { CDR ; NIL operation ; PAIR }'
 FAIL_TAILS = {
     'failwith': ['UNIT', 'FAILWITH'],
@@ -65,7 +73,10 @@ FAIL_TAILS = {
     'bad_commit': ['PUSH int 1', 'COMMIT'],
     'alloc_then_fail': ['EMPTY_BIG_MAP int string', 'UNIT', 'FAILWITH'],
     'patch_then_fail': ['PATCH AMOUNT 777', 'PATCH NOW 4242', 'UNIT', 'FAILWITH'],
+    'create_then_fail': ['PUSH int 0', 'PUSH mutez 0', 'NONE key_hash', 'CREATE_CONTRACT { parameter unit ; storage int ; code { CDR ; NIL operation ; PAIR } }', 'FAILWITH'],
+    'sapling_then_fail': ['SAPLING_EMPTY_STATE 8', 'FAILWITH'],
     'begin_then_fail': None,  # filled per storage: BEGIN with a good literal, then FAILWITH
+    'begin_ids_then_fail': None,  # BEGIN registering on-chain big_maps (storage and, where possible, parameter), then FAILWITH
 }
 NEUTRAL = [
     ['PUSH int 3', 'DROP'],
@@ -82,6 +93,10 @@ NEUTRAL = [
     ['PATCH AMOUNT'],
     ['EMPTY_BIG_MAP int string', 'PUSH string "t"', 'SOME', 'PUSH int 1', 'UPDATE', 'DROP'],
     ['EMPTY_BIG_MAP int string', 'BIG_MAP_DIFF', 'DROP'],
+    ['PUSH int 0', 'PUSH mutez 0', 'NONE key_hash', 'CREATE_CONTRACT { parameter unit ; storage int ; code { CDR ; NIL operation ; PAIR } }', 'DROP', 'DROP'],
+    ['SAPLING_EMPTY_STATE 8', 'DROP'],
+    ['PATCH BALANCE 1000', 'PUSH nat 5', 'PUSH string "tk"', 'TICKET', 'DROP'],
+    ['PATCH SENDER "tz1VSUr8wwNhLAzempoch5d6hLRiTh8Cjcjb"'],
 ]
 
 
@@ -104,18 +119,19 @@ def bm_op(rng, tag):
 
 def good_session(rng, tier):
     """A list of cells (each a list of instruction strings) designed to succeed."""
-    shape = rng.choice(['bm', 'bm', 'bm_bm', 'bm_bm', 'bm_int', 'bm3', 'int'])
+    shape = rng.choice(['bm', 'bm', 'bm_bm', 'bm_bm', 'bm_int', 'bm3', 'int', 'pbm', 'pbm'])
     ty, lits, nbm = STORAGES[shape]
-    cells = [[f'parameter unit ; storage ({ty}) ; {CODE}']]
+    pty, plits = PARAMS.get(shape, ('unit', ['Unit']))
+    cells = [[f'parameter ({pty}) ; storage ({ty}) ; {CODE}']]
     rounds = rng.choice([1, 2, 2, 3])
     for rd in range(rounds):
         tag = 'abcdef'[rd]
         body = []
         fresh = nbm > 0 and rng.random() < 0.45
         if rng.random() < 0.2 and rd > 0:
-            cells.append([f'RUN %default Unit {rng.choice(lits)}'])
+            cells.append([f'RUN %default {rng.choice(plits)} {rng.choice(lits)}'])
         if fresh:
-            if shape == 'bm':
+            if shape in ('bm', 'pbm'):
                 body.append(['EMPTY_BIG_MAP int string'])
                 for _ in range(rng.randint(0, 3)):
                     body.append(bm_op(rng, tag))
@@ -140,9 +156,9 @@ def good_session(rng, tier):
                         body.append(bm_op(rng, tag))
                 body.append(['SWAP', 'PAIR', 'SWAP', 'PAIR'])
         else:
-            body.append([f'BEGIN Unit {rng.choice(lits)}'])
-            body.append(['CDR'])
-            if shape == 'bm':
+            body.append([f'BEGIN {rng.choice(plits)} {rng.choice(lits)}'])
+            body.append(['CAR' if (shape == 'pbm' and rng.random() < 0.4) else 'CDR'])
+            if shape in ('bm', 'pbm'):
                 for _ in range(rng.randint(0, 4)):
                     body.append(bm_op(rng, tag))
             elif shape == 'bm_bm':
@@ -186,6 +202,7 @@ def gen(seed, tier):
     rng = rng_for(seed, 22)
     shape, cells = good_session(rng, tier)
     ty, lits, nbm = STORAGES[shape]
+    pty, plits = PARAMS.get(shape, ('unit', ['Unit']))
     p_fail = rng.choice([0.1, 0.25, 0.4])
     modes = [m for m in ('prefix', 'inject') if rng.random() < 0.7] or ['prefix']
     tails = [t for t in sorted(FAIL_TAILS) if rng.random() < 0.5] or ['failwith']
@@ -198,8 +215,11 @@ def gen(seed, tier):
                 k = rng.randint(0, len(src))
                 tname = rng.choice(tails)
                 tail = FAIL_TAILS[tname]
-                if tail is None:
-                    tail = [f'BEGIN Unit {lits[0]}', 'UNIT', 'FAILWITH']
+                if tail is None and tname == 'begin_then_fail':
+                    tail = [f'BEGIN {plits[0]} {lits[0]}', 'UNIT', 'FAILWITH']
+                elif tail is None:
+                    idlits = [x for x in lits if any(ch.isdigit() for ch in x) and 'Elt' not in x and x not in ('0',)] or lits
+                    tail = [f'BEGIN {plits[0]} {rng.choice(idlits)}', 'UNIT', 'FAILWITH']
                 steps.append({'instrs': src[:k] + tail, 'plan': {'mode': 'prefix', 'k': k, 'tail': tname}})
             else:
                 src = cell if rng.random() < 0.8 else list(rng.choice(NEUTRAL))
@@ -226,6 +246,11 @@ PROBE = [
     'CDR ; UNPAIR ; PUSH string "q" ; SOME ; PUSH int 2 ; UPDATE ; PAIR ; NIL operation ; PAIR ; COMMIT',
     'EMPTY_BIG_MAP int string ; EMPTY_BIG_MAP int string ; PAIR ; NIL operation ; PAIR ; COMMIT',
     'DUMP',
+    'PUSH int 0 ; PUSH mutez 0 ; NONE key_hash ; CREATE_CONTRACT { parameter unit ; storage int ; code { CDR ; NIL operation ; PAIR } } ; DROP',
+    'SAPLING_EMPTY_STATE 8',
+    'DROP_ALL',
+    'BEGIN Unit (Pair 5 7)',
+    'CDR ; UNPAIR ; DUP ; PUSH int 1 ; GET ; DROP ; PUSH string "r" ; SOME ; PUSH int 9 ; UPDATE ; PAIR ; NIL operation ; PAIR ; COMMIT',
 ]
 
 
@@ -235,8 +260,28 @@ def cell_text(instrs):
 
 def execute(scn, want_log=False):
     from pytezos.michelson.repl import Interpreter
+    from pytezos.rpc.node import RpcNode
+    from pytezos.rpc.shell import ShellQuery
+
+    from simtz import c15
+    from simtz import core
+    from simtz import nodesim
 
     rs.install_fault_points()
+    sim = core.Sim()
+    node = nodesim.SimNode(sim, {})
+    node.bake(2)
+    for bm, content in CHAIN_BIG_MAPS.items():
+        node.big_maps[bm] = {c15.key_hash('int', k): {'string': v} for k, v in content.items()}
+    tr = core.Transport(sim, node.handle, max_requests=5000)
+    seams = core.Seams(sim, tr).install()
+    try:
+        return _execute(scn, want_log, Interpreter, lambda: ShellQuery(RpcNode(URI)), sim, node)
+    finally:
+        seams.uninstall()
+
+
+def _execute(scn, want_log, Interpreter, make_shell, sim, node):
     log = []
     violations = []
     probes = {}
@@ -248,6 +293,8 @@ def execute(scn, want_log=False):
 
     a = Interpreter()
     b = Interpreter()
+    a.context.shell = make_shell()
+    b.context.shell = make_shell()
     failed_any = False
     last_fail = None
     compared = 0
@@ -273,12 +320,16 @@ def execute(scn, want_log=False):
                 bump(probes, 'failed_after_alloc_tmp_id')
             if 'PATCH' in text:
                 bump(probes, 'failed_after_context_patch')
+            if 'CREATE_CONTRACT' in text or 'SAPLING_EMPTY_STATE' in text:
+                bump(probes, 'failed_after_origination_or_sapling_index')
             if 'DIP {' in text or 'ITER {' in text or 'LAMBDA' in text:
                 bump(probes, 'failure_inside_nested_block')
             if 'RUN %default' in text:
                 bump(probes, 'failed_run_after_clear')
-            if 'BEGIN Unit' in text:
+            if 'BEGIN ' in text:
                 bump(probes, 'failed_begin')
+                if any(f'BEGIN {pl} ' in text for pl in ('7', '6')) or any(tok in text for tok in (' 5 ;', ' 6 ;', '(Pair 5', ' 5) ;')):
+                    bump(probes, 'failed_after_registering_chain_big_map')
             if 'COMMIT' in text:
                 bump(probes, 'failed_commit')
             pos = 'k0' if plan.get('k') == 0 else ('end' if plan.get('k') == len(st['instrs']) else 'mid')
@@ -290,9 +341,6 @@ def execute(scn, want_log=False):
         if failed_any:
             compared += 1
         if 'COMMIT' in text and failed_in_round:
-            ld = None
-            for node in (ra['instr'] or {}).get('items', []) if isinstance(ra['instr'], dict) else []:
-                pass
             if json.dumps(ra['instr']).count('"action"') >= 2:
                 bump(probes, 'commit_after_failure_two_big_maps')
             failed_in_round = False
@@ -329,7 +377,8 @@ def execute(scn, want_log=False):
         'probes': probes,
         'states': sorted(states),
         'seqs': [],
-        'virtual_ms': 0,
+        'virtual_ms': sim.now_ms,
+        'unmodelled': dict(node.unmodelled),
         'digest': digest,
         'summary': {'cells': len(scn['steps']), 'failed_cells': sum(1 for e in log if e.get('a_error') and 'probe' not in e), 'compared_after_failure': compared,
                     'shape': scn['shape']},
